@@ -543,6 +543,9 @@ func (r *Run) causeFor(upseid uint64, cause string) string {
 	if t, ok := r.Taints[upseid]; ok {
 		return "after:" + t
 	}
+	if upseid == 0 && r.noTaintFallback {
+		return cause
+	}
 	if upseid == 0 && r.sharedTaint != "" {
 		// a tainted session had a valid request rejected: what that request
 		// half-did to objects shared between sessions belongs to its trigger
